@@ -1,4 +1,8 @@
-"""C07 — each unit system is coherent: its units combine with factor one.  Exhaustive, exact (Fractions)."""
+"""C07 — each unit system is coherent: its units combine with factor one.
+Two observations: (1) the tables, exhaustively and exactly (Fractions) against the magnitudes the unit symbols imply;
+(2) the running conversions (mon/c07_coherence.cpp): plain arithmetic on values in a system's base units, converted by the
+library, against the same arithmetic on the converted base values."""
+import os
 from fractions import Fraction as Fr
 
 from props import dumpbase
@@ -15,15 +19,26 @@ def unique_meaning(symbol, dims):
     return dumpbase.choose_meaning(symbol, dims)[0]
 
 
-def run(tier, seed):
-    V = core.Verdict("C07", tier, seed)
+NPARTS = 8
+TYPES = ("float", "double", "long double")
+
+
+def targets(flavour="plain"):
+    return [core.parted("c07_coherence", os.path.join(dumpbase.MON, "c07_coherence.cpp"), NPARTS, flavour=flavour)]
+
+
+def run(tier, seed, flavour="plain", prop="C07"):
+    V = core.Verdict(prop, tier, seed)
     V.assumptions = [
         "exact SI magnitudes of the unit atoms in vlib/symbols.py (international foot/inch, avoirdupois pound, "
         "standard gravity 9.80665, slug = lbf*s^2/ft, slinch = lbf*s^2/in)",
         "a unit system's base units are the consistent units the library returns for Length, Mass, Time, Temperature, "
         "ElectricCurrent and SubstanceAmount, cross-checked against the system's own abbreviation",
+        "run-time observation: each conversion may be off by the 16 ulps C01 allows, so plain arithmetic on converted base "
+        "values and the converted result may differ by 16*(1+sum|exponents|)+1 ulps; base values 2^-12..2^12 (float: 2^-6..2^6)",
     ]
-    d, crash = dumpbase.get_dump()
+    paths = core.build(targets(flavour) + [dumpbase.dump_target(flavour)])
+    d, crash = dumpbase.get_dump(flavour)
     if crash:
         V.add_violation("crash|dump|" + core.classify_crash(crash["rc"], crash["stderr_tail"]), crash)
         return V.finish()
@@ -154,8 +169,42 @@ def run(tier, seed):
             evals += 1
             if k not in named:
                 V.add_violation("C07|type=%s|related-system-table-key-not-an-enumerator" % u["name"], {"key": k})
+    # (2) the running conversions
+    od = core.run_dir(prop, tier)
+    res = core.run_sharded([{"name": "c07_coherence", "binary": paths["c07_coherence"], "nshards": core.NCPU, "out": od,
+                             "args": ["--seed", str(seed), "--tier", tier],
+                             "env": core.SAN_ENV if flavour == "san" else None}], timeout=3600)
+    V.absorb(res)
+    m = core.merge_summaries(res)
+    cnt = m["counters"]
+    observed = {}
+    for k, v in cnt.items():
+        if k.startswith("obs|"):
+            _, sid, tname, t = k.split("|")
+            observed.setdefault(sid, {}).setdefault(t, {})[tname] = v
+    skipped_lists = {k: v for k, v in m.get("lists", {}).items() if k.startswith("skipped_")}
+    for s in systems:
+        for u in d["unit_types"]:
+            if u["dimensions"][6] != 0 or u["consistent"].get(str(s["value"])) is None:
+                continue
+            for t in TYPES:
+                if observed.get(s["id"], {}).get(t, {}).get(u["name"], 0) == 0:
+                    why = [k for k, v in skipped_lists.items() if any(("system=%s|type=%s|%s" % (s["id"], u["name"], t)) in x for x in v)]
+                    V.inconclusive.append("no run-time observation of %s in %s for %s %s" % (u["name"], s["id"], t, why))
+    evals += m["evaluations"]
     V.coverage = {
-        "evaluations": evals, "distinct_nontrivial": len(distinct),
+        "evaluations": evals, "distinct_nontrivial": len(distinct) + m["distinct_nontrivial"],
+        "run_time_observations": {
+            "rule": "one case = base values drawn log-uniformly, their product of powers formed by plain arithmetic, converted from "
+                    "the consistent unit to the standard unit by the library and compared with the same arithmetic on the "
+                    "library-converted base values (binary128)",
+            "cases_judged": m["evaluations"],
+            "cases_per_system_and_numeric_type": {sid: {t: sum(x.values()) for t, x in bt.items()} for sid, bt in observed.items()},
+            "unit_types_observed_per_system": {sid: {t: len([1 for v in x.values() if v]) for t, x in bt.items()} for sid, bt in observed.items()},
+            "max_error_over_bound": {k: v for k, v in m["maxima"].items() if k.startswith("max_error_over_bound_")},
+            "skipped": {k: len(v) for k, v in skipped_lists.items()}, "skipped_out_of_range": cnt.get("skipped_out_of_range", 0),
+            "samples": m["samples"][:8],
+        },
         "rule": "one case per (unit system, unit type) forward entry and per (unit type, unit) reverse look-up; all are "
                 "enumerated from the reflected enumerators; non-trivial = the entry was expanded to an exact rational and compared",
         "samples": samples, "exhaustive": True,
